@@ -16,7 +16,7 @@ Lemma litfunc_is_lit (cb : N -> list value -> store -> store * value) fuel id sp
   end.
 Proof.
   destruct C14_example_constructs as (_ & _ & _ & (r & yr & Hr & Hc & Hcb & Hs & Hy & Hg & Ht)).
-  destruct (C14_lit_func_variant cb api_table func_fields go_stmts C14_forms_wellformed
+  destruct (C14_lit_func_variant cb api_table api_structs func_fields go_stmts C14_forms_wellformed
               (S "LitFunc") (S "Lit") r yr Hr Hc Hcb Hs Hy Hg Ht) as (c & H).
   destruct (H fuel) as [HF HL]. rewrite HF, HL.
   destruct (append_stmt (fst (cb id [] h)) sp [VTok (VConst c) (snd (cb id [] h))]); reflexivity.
